@@ -74,6 +74,7 @@ type PrintState struct {
 	AllParens            bool // print all expressions fully parenthesized.
 	prev                 Node
 	last                 string
+	sepIfOpen            bool // compact mode: a separator is still needed if what comes next starts with ( or [
 }
 
 func DebugString(n Node) string {
@@ -112,6 +113,12 @@ func (ps *PrintState) Print(str ...string) *PrintState {
 		ps.IndentationDone = true
 	}
 	for _, s := range str {
+		if ps.sepIfOpen && s != "" {
+			ps.sepIfOpen = false
+			if s[0] == '(' || s[0] == '[' { // `}(` or `](` would read as a call, `}[` as an index.
+				_, _ = ps.Out.Write([]byte{' '})
+			}
+		}
 		_, _ = ps.Out.Write([]byte(s))
 		ps.last = s
 	}
@@ -194,9 +201,11 @@ func prettyPrintCompact(ps *PrintState, s Node, i int) bool {
 		return true
 	}
 	_, curIsArray := s.(*ArrayLiteral)
-	if curIsArray || (ps.last != "}" && ps.last != "]") {
-		if i > 0 {
+	if i > 0 {
+		if curIsArray || (ps.last != "}" && ps.last != "]") {
 			_, _ = ps.Out.Write([]byte{' '})
+		} else {
+			ps.sepIfOpen = true
 		}
 	}
 	return false
